@@ -5,11 +5,12 @@ try:
 except ImportError:
     pass
 import numpy as np
+import os
 
 from functools import partial
 from pathlib import Path
 from scipy.special import logsumexp
-from shutil import get_terminal_size
+from shutil import copyfile, get_terminal_size
 from threadpoolctl import threadpool_limits
 from time import time
 from warnings import warn
@@ -1265,16 +1266,16 @@ class Sampler():
         if filepath.suffix not in ['.h5', '.hdf5']:
             raise ValueError("File ending must '.h5' or '.hdf5'.")
 
-        if filepath.exists():
-            if not overwrite:
-                raise RuntimeError(
-                    "File {} already exists.".format(str(filepath)))
-            else:
-                filepath.unlink()
+        if filepath.exists() and not overwrite:
+            raise RuntimeError(
+                "File {} already exists.".format(str(filepath)))
 
         filepath.parent.mkdir(parents=True, exist_ok=True)
 
-        fstream = h5py.File(filepath, 'x')
+        # Write to a temporary file and atomically move it into place such
+        # that an interruption never leaves a missing or partial file behind.
+        filepath_tmp = filepath.with_name(filepath.name + '.tmp')
+        fstream = h5py.File(filepath_tmp, 'w')
         group = fstream.create_group('sampler')
 
         for key in ['n_dim', 'n_live', 'n_update', 'n_like_new_bound',
@@ -1322,6 +1323,7 @@ class Sampler():
         group.attrs['rng_uinteger'] = rng_state['uinteger']
 
         fstream.close()
+        os.replace(filepath_tmp, filepath)
 
     def write_shell_update(self, filepath, shell):
         """Update the sampler data for a single shell.
@@ -1336,7 +1338,11 @@ class Sampler():
         """
         if shell < 0:
             shell = len(self.bounds) + shell
-        fstream = h5py.File(Path(filepath), 'r+')
+        # Update a copy and atomically move it into place.
+        filepath = Path(filepath)
+        filepath_tmp = filepath.with_name(filepath.name + '.tmp')
+        copyfile(filepath, filepath_tmp)
+        fstream = h5py.File(filepath_tmp, 'r+')
         group = fstream['sampler']
 
         for key in ['n_like', '_discard_exploration', 'shell_n',
@@ -1368,3 +1374,4 @@ class Sampler():
         group.attrs['rng_uinteger'] = rng_state['uinteger']
 
         fstream.close()
+        os.replace(filepath_tmp, filepath)
